@@ -1,7 +1,7 @@
 (* C10 - Trailer statistics equal the truth about the file *)
-From Coq Require Import NArith ZArith List Lia.
+From Coq Require Import NArith ZArith List Lia String.
 From Mtbl Require Import gen.Consts model.Bytes model.Codec model.Order model.Block model.Crc model.Writer
-  proofs.BytesLemmas proofs.OrderProofs proofs.WriterProofs proofs.MetaProofs.
+  proofs.BytesLemmas proofs.OrderProofs proofs.WriterProofs proofs.MetaProofs model.Tools.
 (* source ties: the statements of the C functions the model follows (gen/Ties.v is regenerated from /repo on every run) *)
 From Mtbl Require props.Ties_C10.
 Local Open Scope N_scope.
@@ -55,8 +55,36 @@ Proof.
   - rewrite Hbv, Hm3, Hv. lia.
 Qed.
 
+
+(* T10d: what mtbl_info prints (model/Tools.v follows print_info in the C locale): every statistics line is its label
+   followed by the decimal rendering of the TRUE value of T10a *)
+Theorem T10d_mtbl_info : forall o off0 ops, 1 <= wo_interval o ->
+  Forall (fun kv => wf_bytes (fst kv)) ops ->
+  exists w sl idx,
+    writer_session compress_default compress_level o off0 ops = Ok (w, accept_spec None ops) /\
+    writer_bytes w = concat (map frame sl) ++ frame idx ++ metadata_write (w_m w) /\
+    info_model (w_m w) =
+      mkinfo (info_line "index block offset:    " (off0 + len (concat (map frame sl))))
+             (info_line "index bytes:           " (len (frame idx)))
+             (info_line "data block bytes       " (len (concat (map frame sl))))
+             (info_line "data block size:       " (wo_block_size o))
+             (info_line "data block count       " (N.of_nat (length sl)))
+             (info_line "entry count:           " (N.of_nat (length (accepted None ops))))
+             (info_line "key bytes:             " (fold_right (fun kv s => len (fst kv) + s) 0 (accepted None ops)))
+             (info_line "value bytes:           " (fold_right (fun kv s => len (snd kv) + s) 0 (accepted None ops)))
+             (chars "compression algorithm: " ++ match Compress.compression_type_to_str (wo_comp o) with
+                                                 | Some s => chars s
+                                                 | None => decimal (wo_comp o)
+                                                 end).
+Proof.
+  intros o off0 ops Hi Hwf.
+  destruct (T10a_statistics o off0 ops Hi Hwf) as (w & sl & idx & H1 & H2 & E1 & E2 & E3 & E4 & E5 & E6 & E7 & E8 & E9).
+  exists w, sl, idx. split; [exact H1|]. split; [exact H2|].
+  unfold info_model. rewrite E1, E2, E3, E4, E5, E6, E7, E8, E9. reflexivity.
+Qed.
 End C10.
 Print Assumptions T10a_statistics.
+Print Assumptions T10d_mtbl_info.
 
 (* T10b: the trailer block decodes to exactly the stored statistics, is 512 bytes
    long; field orders of metadata_write and metadata_read (both scraped from the
